@@ -113,7 +113,24 @@ func families(quick bool) []family {
 			}
 		}
 	}
+	// storage flavour: an external storage that keeps the value slice it is given (and hands it out again uncopied),
+	// under histories that interleave two keys within one window: one key exhausts its budget (three requests in a
+	// row as one letter, passed through or failed so that every skip option has counted ones), the other arrives,
+	// the first again - and the reverse; ticks inside the window and to its end. Both algorithms, all skip options.
+	kl := []hop{
+		{Kind: "req", Key: "a", Status: 200}, {Kind: "req", Key: "a", Status: 500}, {Kind: "req", Key: "a", Status: 200, Times: 3},
+		{Kind: "req", Key: "b", Status: 200}, {Kind: "req", Key: "b", Status: 500}, {Kind: "req", Key: "b", Status: 500, Times: 3},
+		{Kind: "tick", Tick: 1}, {Kind: "tick", AtW: true, Off: 0},
+	}
+	var kcfg []hcfg
+	for _, c := range configs() {
+		if c.Storage == "injected" && c.Limit != "func0" {
+			c.Storage = "keeping"
+			kcfg = append(kcfg, c)
+		}
+	}
 	return []family{
+		{Name: "value-keeping-storage+interleaved-keys", Depth: d + 1, Alpha: kl, Cfgs: kcfg, Resolve: true},
 		{Name: "unset-config-fields+window3", Depth: d + 1, Alpha: dl, Cfgs: dcfg, Resolve: true},
 		{Name: "handler-kinds+bypass", Depth: d, Alpha: append(append([]hop{}, base...), own...), Own: len(own), Cfgs: withCfg(func(c *hcfg) { c.Next = true })},
 		{Name: "per-request-limit", Depth: d + 1, Alpha: append(reqlimit, ticks(full)...), Cfgs: rl},
